@@ -410,17 +410,24 @@ def calc_reshape_args(shape, newshape, subsizes):
     try:
         return _calc_reshape_args(shape, newshape, subsizes)
     except ValueError:
+        # prefer the alternative that still unfuses the most axes, so that
+        # e.g. reshaping back restores the original indices
+        best = None
         for i, subsize in enumerate(subsizes):
             if subsize is not None:
                 try:
-                    return calc_reshape_args(
+                    res = calc_reshape_args(
                         shape,
                         newshape,
                         subsizes[:i] + (None,) + subsizes[i + 1 :],
                     )
                 except ValueError:
-                    pass
-        raise
+                    continue
+                if (best is None) or (len(res[0]) > len(best[0])):
+                    best = res
+        if best is None:
+            raise
+        return best
 
 
 def _calc_reshape_args(shape, newshape, subsizes):
